@@ -262,8 +262,19 @@ class Sim(object):
             return
         f = self._file()
         self.real.saveparameters(f)
+        exp_at_save = self._expected_file_model()
+        if op.get("touch"):
+            # between saving and re-loading, the object is given other values of another type for names the file holds
+            # (ints become floats, numbers become words): loading must bring back exactly what the file states
+            for k, v in list(self.model.items())[:4]:
+                if "-" in k:
+                    continue          # (a hyphenated name is loaded under its underscore spelling; the hyphenated entry itself stays)
+                if type(v) is int:
+                    self.real.set(k, float(v) + 0.5)
+                elif type(v) is float:
+                    self.real.set(k, "word")
         self.real.loadparameters(f)
-        exp = self._expected_file_model()      # the file holds the values as they were when saved
+        exp = exp_at_save      # the file holds the values as they were when saved
         gp = self.real.get_parameters()
         for kk, cands in exp.items():
             pick = cands[-1]
@@ -401,9 +412,9 @@ def make_machine(ctx, tmpdir):
         def save_load_fresh(self):
             self.step({"op": "save_load_fresh"})
 
-        @rule()
-        def load_self(self):
-            self.step({"op": "load_self"})
+        @rule(touch=st.booleans())
+        def load_self(self, touch):
+            self.step({"op": "load_self", "touch": touch})
 
         def teardown(self):
             ctx.n += 1
